@@ -532,11 +532,14 @@ class Interp:
 
     # ======================================================================= attributes
     def getattr(self, obj, name):
-        if isinstance(obj, SList) and name in ('src', 'pos_of', 'source'):
+        if isinstance(obj, SList) and name in ('src', 'pos_of', 'source', 'perm', 'inv'):
             from .gens import YSeq
-            from .seqs import FilteredSList
-            if isinstance(obj, FilteredSList) and name == 'source':
+            from .seqs import FilteredSList, SortedSList
+            if isinstance(obj, (FilteredSList, SortedSList)) and name == 'source':
                 return obj.source
+            if isinstance(obj, SortedSList) and name in ('perm', 'inv'):
+                fn = obj.perm_fn if name == 'perm' else obj.inv_fn
+                return EngineFn(lambda k, fn=fn: wrap(fn(to_z3(k))))
             if isinstance(obj, (YSeq, FilteredSList)) and name in ('src', 'pos_of'):
                 fn = obj.src_fn if name == 'src' else obj.pos_fn
                 return EngineFn(lambda k, fn=fn: wrap(fn(to_z3(k))))
@@ -1532,6 +1535,9 @@ class Interp:
         from . import models
         if isinstance(obj, models.SMap):
             return obj.setitem(self, idx, value)
+        from .mlist import MList
+        if isinstance(obj, MList):
+            return obj.setitem(self, idx, value)
         if contains_sym(idx, 0):
             raise Unsupported('store with symbolic index/key')
         si = _static_lookup(type(obj), '__setitem__')
@@ -1554,6 +1560,12 @@ class Interp:
                 from . import models
                 if isinstance(obj, models.SMap):
                     obj.delitem(self, idx)
+                    continue
+                from .mlist import MList
+                if isinstance(obj, MList) and isinstance(idx, int) and idx == 0:
+                    if not self.st.fork(wrap(obj.length > 0)):
+                        raise PyRaise(IndexError('list assignment index out of range'))
+                    obj.delete_first(self)
                     continue
                 if contains_sym(idx, 0) or isinstance(obj, (Sym, Opaque)):
                     raise Unsupported('del with symbolic operand')
